@@ -9,6 +9,7 @@
 import ShVerif.Base.Hex
 import ShVerif.Base.SExpr
 import ShVerif.Model.L4Syntax
+import ShVerif.Model.L4Transcript
 namespace ShVerif.Drv.L4
 open ShVerif ShVerif.L4
 
@@ -133,7 +134,14 @@ def showParse : Except ParseErr File → String
     `parse <lang> <hex>`                        model parser;
     `reprint <opts> <lang> <hex>`               print (parse src) — both passes in the model;
     `specrt <opts> <lang> <hex>`                C01's statement evaluated on the model;
-    `specidem <opts> <lang> <hex>`              C02's statement evaluated on the model. -/
+    `specidem <opts> <lang> <hex>`              C02's statement evaluated on the model;
+    `spectr <opts> <lang> <hex>`                is the re-parsed tree a transcript of the first
+                                                printing pass (`trFileB`, the hypothesis of
+                                                `reprint_fixpoint`)?  Model-internal;
+    `spectrfile <opts> <n> <sexp f> <sexp f'>`  `trFileB o f f'` on two given trees (the harness
+                                                sends the Go parser's tree of the source and of
+                                                the Go printer's output; `n` = tokens of the
+                                                first S-expression). -/
 def handle (args : List String) : String :=
   match args with
   | "print" :: opts :: kind :: sexp =>
@@ -174,6 +182,22 @@ def handle (args : List String) : String :=
   | ["specidem", opts, lang, src] =>
     match readOpts opts, readLang lang, ofHex src with
     | some o, some l, some b => specIdempotent o l b
+    | _, _, _ => "bad-op"
+  | "spectrfile" :: opts :: n1 :: rest =>
+    match readOpts opts, n1.toNat? with
+    | some o, some k =>
+      let s1 := rest.take k
+      let s2 := rest.drop k
+      match SExp.parse s1, SExp.parse s2 with
+      | some e1, some e2 =>
+        match readFile (s1.length + 1) e1, readFile (s2.length + 1) e2 with
+        | some f, some f' => if trFileB o f f' then "true" else "false"
+        | _, _ => "bad-tree"
+      | _, _ => "bad-op"
+    | _, _ => "bad-op"
+  | ["spectr", opts, lang, src] =>
+    match readOpts opts, readLang lang, ofHex src with
+    | some o, some l, some b => specTranscript o l b
     | _, _, _ => "bad-op"
   | _ => "bad-op"
 
